@@ -7,6 +7,7 @@ import (
 	"io"
 	"os"
 	"path/filepath"
+	"runtime"
 	"strings"
 
 	task "github.com/go-task/task/v3"
@@ -162,7 +163,7 @@ func (sc *Scenario) Body(dir string, x *Exec, probe *Probe, raw *RawWriter) func
 			task.WithAssumeTerm(sc.Opts.AssumeTerm),
 			task.WithDry(sc.Opts.Dry),
 			task.WithSummary(sc.Opts.Summary),
-			task.WithStdin(strings.NewReader(sc.Opts.Stdin)),
+			task.WithStdin(&lineReader{s: sc.Opts.Stdin}),
 			task.WithVersionCheck(true),
 		}
 		if sc.Opts.Output != "" {
@@ -240,3 +241,40 @@ func (sc *Scenario) ResetFS(dir string) {
 }
 
 var ErrHarness = errors.New("harness error")
+
+// lineReader hands out at most one line per Read, so that a bufio.Reader created per
+// prompt does not swallow the answers meant for later prompts (as a terminal would not).
+type lineReader struct{ s string }
+
+func (r *lineReader) Read(p []byte) (int, error) {
+	if len(r.s) == 0 || !calledFromPrompt() {
+		// only the prompt is answered: mvdan/sh copies a non-file stdin to every command through
+		// a helper goroutine, which would otherwise steal the answers in a race outside the scheduler
+		return 0, io.EOF
+	}
+	n := strings.IndexByte(r.s, '\n') + 1
+	if n <= 0 {
+		n = len(r.s)
+	}
+	if n > len(p) {
+		n = len(p)
+	}
+	copy(p, r.s[:n])
+	r.s = r.s[n:]
+	return n, nil
+}
+
+func calledFromPrompt() bool {
+	pcs := make([]uintptr, 24)
+	n := runtime.Callers(2, pcs)
+	frames := runtime.CallersFrames(pcs[:n])
+	for {
+		f, more := frames.Next()
+		if strings.HasSuffix(f.Function, "logger.(*Logger).Prompt") {
+			return true
+		}
+		if !more {
+			return false
+		}
+	}
+}
